@@ -233,6 +233,11 @@ def explore_split(modname, params, depth=3, procs=None, limit=4, timeout=3600):
         h = mod.make(params)
         symex.ENGINE = h.eng
         prefixes = h.eng.enumerate_prefixes(h.run, depth)
+        # deepen the split until there is enough work to share out
+        d = depth
+        while procs > 1 and len(prefixes) < 3 * procs and d < depth + 8 and any(len(p) >= d for p in prefixes):
+            d += 2
+            prefixes = h.eng.enumerate_prefixes(h.run, d)
         agg["queries"] += h.eng.n_queries
         agg["solver_s"] += h.eng.solver_time
     except (symex.NotEncodable, symex.BoundExceeded) as ex:
